@@ -4,4 +4,5 @@ INVARIANT NoException
 INVARIANT TestsByChainOrder
 INVARIANT ResponsesByChainOrder
 INVARIANT TestsLocCombine
+INVARIANT TestsLocPartial
 CHECK_DEADLOCK FALSE
